@@ -179,11 +179,17 @@ def run_case(case: Dict[str, Any], ctx) -> None:
         def cancel(fr_):
             """extra relative tolerance of a 16-bit SUMMED gradient whose terms cancel: with per-term rounding the absolute error is
             about eps * sqrt(n) * |upstream|; relative to a result that is only a fraction rho of that magnitude it is eps / rho"""
-            if dtype not in (torch.bfloat16, torch.float16) or n_terms < 2:
+            if dtype not in (torch.bfloat16, torch.float16):
                 return 0.0
+            # (an element computed from operands of size |upstream| x |input| carries 2 ulp of THAT size as absolute error, however
+            # small the element itself is - silu' near its zero, a gate product that nearly cancels)
+            gmax_ = max(float(fr_.grads_r[name].abs().max()) if fr_.grads_r[name].numel() else 0.0, 1e-30)
+            elem = 2 * _EPS[case["dtype"]] * fr_.upstream_max * fr_.input_max / gmax_
+            if n_terms < 2:
+                return min(elem, 1.0)
             big_ = n_terms ** 0.5 * max(fr_.upstream_max, 1e-30)
             rho = min(1.0, float(fr_.grads_r[name].abs().max()) / big_) if fr_.grads_r[name].numel() else 1.0
-            return 4 * _EPS[case["dtype"]] / max(rho, 1e-6)
+            return 4 * _EPS[case["dtype"]] / max(rho, 1e-6) + min(elem, 1.0)
         extra = {"A": cancel(A), "B": cancel(B), "C": cancel(C)}
         extras_by_name[name] = (red, extra["A"])
         for b, r, tag in zip(bs, rs, "ABC"):
